@@ -352,6 +352,27 @@ pub fn main(tier: Tier) -> i32 {
         }
     }
     samples.push(json!({"part": "shared", "list": lists[lists.len() / 2].iter().map(show).collect::<Vec<_>>()}));
+    // ---------------- (c) the read path above check_hmac ----------------
+    // ExternalPersistWithHelper::init_state lives in vls-util (async stack): it is driven by the
+    // separate `vmc-ext` binary, which `check` runs first; its result file is folded in here.
+    let ext: Value = match std::env::var("VERIF_C17_EXT").ok().and_then(|p| std::fs::read_to_string(p).ok()).and_then(|t| serde_json::from_str(&t).ok()) {
+        Some(v) => v,
+        None => machinery_failure("the read-path result of vmc-ext is missing (run through ./check, which builds and runs it)"),
+    };
+    let ext_cases = ext["cases"].as_u64().unwrap_or(0);
+    if ext_cases == 0 || ext["honest_responses_accepted"].as_u64().unwrap_or(0) == 0 {
+        run.vacuous(&format!("read path: {} responses explored, {} honest ones accepted", ext_cases, ext["honest_responses_accepted"]));
+    }
+    for v in ext["violations"].as_array().cloned().unwrap_or_default() {
+        run.violation(v["key"].as_str().unwrap_or("C17:read:unnamed"), v["what"].as_str().unwrap_or(""), json!({"engine": "vmc-ext readpath", "case": v["case"]}));
+    }
+    evaluations += ext_cases;
+    if let Some(a) = ext["samples"].as_array() {
+        for x in a.iter().take(2) {
+            samples.push(json!({"part": "read-path", "case": x}));
+        }
+    }
+    run.assume("read path: the provider does not hold the shared secret; it returns any edit of the stored list with a tag it has seen or made up");
     run.assume("byte alphabet {0x00, 'a', 'b'} for key characters, version bytes (00^5 + 2-3 alphabet bytes) and value bytes; keys of 1-2 (presented: 1-3) characters, values of 0-2 bytes, lists of <= 2 records");
     run.assume("HMAC-SHA256 itself is trusted; the per-value MAC is checked without the optional 'crypt' feature (as vls builds the storage library)");
     let cov = json!({
@@ -365,6 +386,7 @@ pub fn main(tier: Tier) -> i32 {
         "lists": lists.len(),
         "signer_vs_storage_library_cross_checked": cross_checked,
         "replay_checked": replay_checked,
+        "read_path": {"responses": ext_cases, "accepted": ext["accepted"], "refused": ext["refused"], "honest_responses_accepted": ext["honest_responses_accepted"], "distinct_nonces": ext["distinct_nonces"], "rule": ext["rule"]},
         "rule": "all records / lists over the alphabet; per-value: every written record's stored bytes presented under every other (key, version) and with every single-bit/structural edit; shared: tag of every list, collisions found through a hash map; non-trivial = an accepted presentation or a tag collision (0 on code without the defect, then the count of accepted own records is reported)",
         "samples": samples,
         "exhaustive": true,
